@@ -88,6 +88,11 @@ def itemName : DE → Option String
 
 def itemNames (l : List DE) : List String := l.filterMap itemName
 
+/-- `var` names of the head of a `for` -/
+def forInitNames : DS → List String
+  | .decl .var items => itemNames items
+  | _ => []
+
 mutual
 /-- names declared with `var` inside a statement (through blocks, loops, try; not into functions) -/
 def varNamesS : DS → List String
@@ -95,7 +100,7 @@ def varNamesS : DS → List String
   | .decl _ _ => []
   | .ifS _ t e => varNamesS t ++ varNamesS e
   | .block l => varNamesL l
-  | .forS _ i _ _ b => varNamesS i ++ varNamesL b
+  | .forS _ i _ _ b => forInitNames i ++ varNamesL b
   | .tryS b _ _ cb => varNamesL b ++ varNamesL cb
   | _ => []
 def varNamesL : List DS → List String
